@@ -235,9 +235,31 @@ def leanchecker_stage(ctx, cfg):
 
 # ---------------------------------------------------------------- correspondence
 
-def run_lines(binpath, lines, timeout=600, env=None):
-    r = subprocess.run([binpath] if isinstance(binpath, str) else binpath, input="\n".join(lines) + "\n",
-                       capture_output=True, text=True, timeout=timeout, env=env)
+class _Hung:
+    """stands for the CompletedProcess of a runner that had to be killed"""
+    def __init__(self, stdout, stderr):
+        self.returncode, self.stdout, self.stderr, self.hung = -9, stdout, stderr, True
+
+
+def run_lines(binpath, lines, timeout=None, env=None):
+    """Run a line-protocol process on `lines`.  A runner that does not finish in time (a change to
+    the code can make the implementation deadlock or spin) is killed; the lines it did answer are
+    returned, so the first unanswered operation shows up as `<no-output>` — a divergence."""
+    if timeout is None:
+        timeout = float(os.environ.get("VERIF_SEQ_TIMEOUT", "240"))
+    try:
+        r = subprocess.run([binpath] if isinstance(binpath, str) else binpath, input="\n".join(lines) + "\n",
+                           capture_output=True, text=True, timeout=timeout, env=env)
+    except subprocess.TimeoutExpired as e:
+        out = e.stdout or ""
+        if isinstance(out, bytes):
+            out = out.decode("utf-8", "replace")
+        got = out.split("\n")
+        if got and got[-1] == "":
+            got.pop()
+        log("  runner %s killed after %ds: answered %d of %d operations" % (
+            os.path.basename(binpath if isinstance(binpath, str) else binpath[0]), timeout, len(got), len(lines)))
+        return got[:len(lines)], _Hung(out, "")
     return r.stdout.split("\n")[:len(lines)], r
 
 
@@ -280,11 +302,12 @@ def shrink(ctx, vcorr, seq_lines):
         return cur
     cur = cur[:idx + 1]
     budget = 400
+    deadline = time.time() + float(os.environ.get("VERIF_SHRINK_SECONDS", "420"))
     changed = True
-    while changed and budget > 0:
+    while changed and budget > 0 and time.time() < deadline:
         changed = False
         i = len(cur) - 1
-        while i >= 1 and budget > 0:
+        while i >= 1 and budget > 0 and time.time() < deadline:
             cand = cur[:i] + cur[i + 1:]
             budget -= 1
             if len(cand) >= 1:
@@ -331,8 +354,35 @@ def correspondence(ctx, cfg_comp, label=None):
             ops.pop()
         implf = os.path.join(ctx.scratch, "%s.impl" % label)
         modf = os.path.join(ctx.scratch, "%s.model" % label)
-        with open(opsf) as fi, open(implf, "w") as fo:
-            r1 = subprocess.run([vcorr, "run"], stdin=fi, stdout=fo, stderr=subprocess.PIPE, text=True, env=GOENV)
+        # watchdog: a change to the code can make the implementation deadlock or spin.  The runner answers
+        # one line per operation; when its output has not grown for VERIF_STALL seconds it is killed, what it
+        # answered so far stays in the file, and the operation it hangs on is the first `<no-output>`: a divergence
+        stall = float(os.environ.get("VERIF_STALL", "240"))
+        errf = os.path.join(ctx.scratch, "%s.stderr" % label)
+        with open(opsf) as fi, open(implf, "w") as fo, open(errf, "w") as fe:
+            p = subprocess.Popen([vcorr, "run"], stdin=fi, stdout=fo, stderr=fe, text=True, env=GOENV)
+            last_size, last_t = -1, time.time()
+            hung = False
+            while True:
+                try:
+                    p.wait(timeout=3)
+                    break
+                except subprocess.TimeoutExpired:
+                    sz = os.path.getsize(implf)
+                    if sz != last_size:
+                        last_size, last_t = sz, time.time()
+                    elif time.time() - last_t > stall:
+                        p.kill()
+                        p.wait()
+                        hung = True
+                        break
+        with open(errf) as fe:
+            err_txt = fe.read()[-4000:]
+        if hung:
+            r1 = _Hung("", err_txt)
+            log("  impl runner killed: no answer for %ds — the unanswered operation is reported" % stall)
+        else:
+            r1 = subprocess.CompletedProcess([vcorr, "run"], p.returncode, "", err_txt)
         with open(opsf) as fi, open(modf, "w") as fo:
             r2 = subprocess.run([model_bin()], stdin=fi, stdout=fo, stderr=subprocess.PIPE, text=True)
         with open(implf) as fh:
@@ -381,6 +431,8 @@ def correspondence(ctx, cfg_comp, label=None):
             elif len(ctx.cov["samples"]) < 3 and nontriv and 3 <= len(seq) <= 14:
                 ctx.cov["samples"].append({"component": label, "ops": lines,
                                            "observations": [impl[i] for i in seq]})
+        if getattr(r1, "hung", False) and bad:
+            bad = bad[:1]       # everything after the operation the implementation hangs on is unanswered
         log("  %s %s: %d sequences, %d ops, %d diverging" % (label, name, len(seqs), len(ops), len(bad)))
         for lines, div, orig in bad[:3]:
             small = shrink(ctx, vcorr, lines)
